@@ -150,10 +150,21 @@ Example C17_ex_run :
   let a := finish (bundle (map denote [DRecord 1; DLogRequest; DLogResponse; DRecord 2]) (run_h ex_echo) base
                      (init_world ex_req)) in
   visible_log a = [EEnter 1; EEnter 2; EObsReq 2 1 [(3, 4)]; EObsRead [104; 105]; EExit 2; EExit 1]
-  /\ client_view a = (Some (201, [(7, 8)]), [104; 105; 33])
+  /\ client_view a = (Some (201, [(7, 8)]), [104; 105; 33], [])
   /\ w_log a = [EEnter 1; ELogReq 2 1 [104; 105]; EEnter 2; EObsReq 2 1 [(3, 4)]; EObsRead [104; 105];
                 EExit 2; ELogResp 2 1 201 [104; 105; 33]; EExit 1].
 Proof. vm_compute. repeat split. Qed.
+
+(* several WriteHeader calls: 103 Early Hints with the headers of that moment, then the final status; a second
+   final status and anything after a Flush are ignored - identically with and without LogResponse *)
+Definition ex_hints : hprog :=
+  HSetHdr 1 5 (HStatus 103 (HSetHdr 2 6 (HStatus 404 (HStatus 500 (HWrite [9] (HFlush (HStatus 201 HDone))))))).
+Example C17_ex_informational :
+  let a := finish (log_response (run_h ex_hints) base (init_world ex_req)) in
+  let b := finish (run_h ex_hints base (init_world ex_req)) in
+  client_view a = client_view b
+  /\ client_view b = (Some (404, [(1, 5); (2, 6)]), [9], [(103, [(1, 5)])]).
+Proof. vm_compute. split; reflexivity. Qed.
 
 (* the table: later AddRoute wins, HEAD is served by GET, 405 and 404 *)
 Example C17_ex_table :
